@@ -108,9 +108,14 @@ func (l *List[T]) IsSorted(lt cmp.LessThan[T]) bool {
 // slice and then using sort.Slice() from the standard library, and
 // then re-adding those elements to the list, will perform better.
 //
-// The operation will modify the input list, replacing it with an new
-// list operation.
-func (l *List[T]) SortMerge(lt cmp.LessThan[T]) { *l = *mergeSort(l, lt) }
+// The operation modifies the list in place: the elements are sorted
+// into an intermediate list and then moved back, so that they remain
+// members of this list.
+func (l *List[T]) SortMerge(lt cmp.LessThan[T]) {
+	if sorted := mergeSort(l, lt); sorted != l {
+		l.Extend(sorted)
+	}
+}
 
 // SortQuick sorts the list, by removing the elements, adding them
 // to a slice, and then using sort.SliceStable(). In many cases this
